@@ -702,7 +702,7 @@ func e11ResumeCase(seed uint64, n int) Case {
 	stall := []time.Duration{50 * time.Millisecond, 3 * time.Second, 11 * time.Second, 65 * time.Second, 10 * time.Minute}[n%5]
 	return Case{ID: id, Desc: map[string]interface{}{"seed": seed, "n": n, "stalled_for": stall.String(), "what": "overrun, long stall with events trickling in, resume"}, Bubble: true, Run: func(r *Res) {
 		rng := kit.NewRng(kit.Mix(seed, uint64(n)+1170))
-		core := kit.NewCore(&kit.Plan{Seed: rng.U64(), PYield: 100, PSleep: 15, MaxSleep: 40 * time.Microsecond})
+		core := kit.NewCore(&kit.Plan{Seed: rng.U64(), PYield: 100, PSleep: []int{15, 50, 80}[n%3], MaxSleep: 150 * time.Microsecond})
 		g := newRootRig(core, nil)
 		defer g.stop(r, "C12")
 		g.root.MakeReady()
@@ -718,6 +718,21 @@ func e11ResumeCase(seed uint64, n int) Case {
 			lag, _ = cl.Subscribe()
 		}
 		g.barrier()
+		publish1 := func() bool {
+			done := make(chan error, 1)
+			go func() { _, err := g.mutate(rng, u); done <- err }()
+			select {
+			case err := <-done:
+				if err != nil {
+					r.V("C10", "publish-error", "%v", err)
+					return false
+				}
+				return true
+			case <-time.After(time.Minute):
+				r.V("C10", "producer-blocked", "publishing an event did not complete within a minute of virtual time right after a stalled consumer resumed\n%s", kit.CensusText(kit.Census(), 10))
+				return false
+			}
+		}
 		publish := func(k int) bool {
 			for i := 0; i < k; i++ {
 				done := make(chan error, 1)
@@ -739,30 +754,52 @@ func e11ResumeCase(seed uint64, n int) Case {
 			g.barrier()
 			return true
 		}
-		if !publish(kcache.EventBufsiz + 20) { // the lagging consumer overruns
-			return
-		}
-		// events keep trickling in while it stays stalled
-		for i := 0; i < 4; i++ {
-			time.Sleep(stall / 4)
-			if !publish(1) {
-				return
+		var got []evrec
+		take := func() {
+			for len(lag.Events()) > 0 {
+				e := <-lag.Events()
+				got = append(got, evrec{Type: e.Type(), Key: kit.Key(e.Resource()), RV: e.Resource().GetResourceVersion()})
 			}
 		}
-		// it resumes: takes everything that is there
-		var got []evrec
-		for len(lag.Events()) > 0 {
-			e := <-lag.Events()
-			got = append(got, evrec{Type: e.Type(), Key: kit.Key(e.Resource()), RV: e.Resource().GetResourceVersion()})
-		}
-		g.barrier()
-		before := g.sentCount()
-		if !publish(5) {
-			return
-		}
-		for len(lag.Events()) > 0 {
-			e := <-lag.Events()
-			got = append(got, evrec{Type: e.Type(), Key: kit.Key(e.Resource()), RV: e.Resource().GetResourceVersion()})
+		missing, cycles := 0, 4
+		for cyc := 0; cyc < cycles; cyc++ {
+			if !publish(kcache.EventBufsiz + 20) { // the lagging consumer overruns
+				return
+			}
+			// events keep trickling in while it stays stalled
+			for i := 0; i < 4; i++ {
+				time.Sleep(stall / 4)
+				if !publish(1) {
+					return
+				}
+			}
+			// it resumes: takes everything that is there
+			take()
+			g.barrier()
+			before := g.sentCount()
+			// a few events right behind one another at the moment of recovery
+			for i := 0; i < 5; i++ {
+				if !publish1() {
+					return
+				}
+				if rng.Chance(40) {
+					time.Sleep(time.Duration(rng.Intn(120)) * time.Microsecond)
+				}
+			}
+			g.barrier()
+			take()
+			for _, e := range g.sent[before:] {
+				found := false
+				for _, x := range got {
+					if sameEvent(x, e) {
+						found = true
+					}
+				}
+				if !found {
+					missing++
+				}
+			}
+			r.Add("resumed-consumer-checks", 1)
 		}
 		sent := g.sent
 		checkExact(r, "healthy sibling of a consumer that stalled for "+stall.String()+" and resumed", hm.events(), sent)
@@ -770,21 +807,8 @@ func e11ResumeCase(seed uint64, n int) Case {
 		if nn, why := checkSubsequence(got, sent); nn < 0 {
 			r.V("C10", "slow-stream-not-subsequence", "resumed consumer: %s", why)
 		}
-		missing := 0
-		for _, e := range sent[before:] {
-			found := false
-			for _, x := range got {
-				if sameEvent(x, e) {
-					found = true
-				}
-			}
-			if !found {
-				missing++
-			}
-		}
-		r.Add("resumed-consumer-checks", 1)
 		if missing > 0 {
-			r.V("C10", "resumed-consumer-lost-events", "a consumer that had overrun, stayed stalled for %v and then emptied its buffer did not receive %d of the 5 events published afterwards", stall, missing)
+			r.V("C10", "resumed-consumer-lost-events", "a consumer that had overrun, stayed stalled for %v and then emptied its buffer did not receive %d of the %d events published right afterwards (it had room for all of them)", stall, missing, 5*cycles)
 		}
 		r.Key(id)
 	}}
